@@ -165,7 +165,7 @@ def run(run):
                             direct = e[0] == "call" and re.search(r"Iterator::map$", e[1]) and e[2]
                             if direct:
                                 e = strip(e[2][0])
-                                while e[0] == "call" and re.search(r"::(iter|deref|into_iter)$", e[1]) and e[2]:
+                                while e[0] == "call" and re.search(r"::(iter|deref|into_iter|keys)$", e[1]) and e[2]:
                                     e = strip(e[2][0])
                                 direct = e[0] == "param" and e[1] == 1
                             if not direct:
